@@ -63,6 +63,27 @@ def callStep (i : Inst) (args : List Int) : Inst × List Entry × Bool :=
   ({ i with steps := i.steps + 1, execs := i.execs + k,
             running := i.running && !(k != 0 && decide (i.stopAt ≤ i.execs + k)) }, r.1, r.2)
 
+/-- the records up to and including the first one made at depth `r` -/
+def takeThrough (r : Nat) : List Entry → List Entry
+  | [] => []
+  | e :: es => if e.depth == r then [e] else e :: takeThrough r es
+
+/-- a class body that raises: the level at depth `r` is `def step(self, …): <record>; raise RuntimeError(…)` — its body makes
+    its record (and counts for the stop rule) and then raises, before any `super().step(…)`.  Of the bodies the chain would
+    run, those up to and including the first at depth `r` run, nothing after it does (not even the `TypeError` a later level
+    would have raised), and the call does not return normally.  A chain that never reaches depth `r` is unaffected. -/
+def cutAt (r : Option Nat) (res : List Entry × Bool) : List Entry × Bool :=
+  match r with
+  | none => res
+  | some r => if res.1.any (·.depth == r) then (takeThrough r res.1, false) else res
+
+/-- `model.step(*args)` = `_wrapped_step(*args)` on an instance of a class whose body at depth `r` raises (`none`: no body does) -/
+def callStepR (i : Inst) (r : Option Nat) (args : List Int) : Inst × List Entry × Bool :=
+  let res := cutAt r (runChain i.hier 0 args (i.steps + 1))
+  let k := res.1.length
+  ({ i with steps := i.steps + 1, execs := i.execs + k,
+            running := i.running && !(k != 0 && decide (i.stopAt ≤ i.execs + k)) }, res.1, res.2)
+
 /-- `run_model` with fuel (`none` = does not terminate within the fuel) -/
 def runModel : Nat → Inst → Option (Inst × List Entry)
   | 0, _ => none
@@ -98,5 +119,16 @@ def apply (w : List Inst) : Op → List Inst
   | .halt i => match w[i]? with | some x => w.set i (halt x) | none => w
 
 def run (w : List Inst) (ops : List Op) : List Inst := ops.foldl apply w
+
+/-- does the call return?  A `run_model` whose model is still `running` when the fuel is used up does not: Python would loop
+    on, the model's `apply` leaves the world as it was — a reading no statement about histories may rely on -/
+def Op.returns (w : List Inst) : Op → Bool
+  | .run i fuel => match w[i]? with | some x => (runModel fuel x).isSome | none => true
+  | _ => true
+
+/-- a history every call of which returns -/
+def allReturn : List Inst → List Op → Bool
+  | _, [] => true
+  | w, op :: ops => op.returns w && allReturn (apply w op) ops
 
 end Mesa.Steps
